@@ -33,7 +33,8 @@ MANIFEST = {
 }
 BUDGET = {'quick': 80, 'thorough': 1500}
 MISMATCH_BUDGET = 0.0
-RULE = ('random edge-consistent sequences of 1-8 (quick) / 1-30 (thorough) blocks with block/sinc RF pulses of use '
+RULE = ('random edge-consistent sequences of 1-8 (quick) / 1-30 (thorough) blocks with block/sinc/composite (2-3 '
+        'equal-amplitude lobes of different length: peak reached on an unevenly distributed sample set) RF pulses of use '
         'none/excitation/refocusing/inversion/saturation/preparation (random delay, duration, centre position), '
         'gradients of all kinds on 3 channels (also during RF), ADC events with random dwell/delay/num_samples; per '
         'sequence calculate_kspace(): t_adc, t_excitation, t_refocusing and k_traj_adc on every channel vs exact '
@@ -194,7 +195,10 @@ def run_case(ctx, case, rng):
         ctx.count('rf.kind.%s' % kind)
     for e in held.blocks:
         if e['rf'] is not None:
-            ctx.count('rf.shape.%s' % ('block' if len(e['rf']['t']) == 2 else 'sinc'))
+            mg = e['rf']['mag']
+            peak = [i for i, v in enumerate(mg) if v >= max(mg) * Fraction(99999, 100000)]
+            uneven = len(peak) > 1 and peak[-1] - peak[0] + 1 != len(peak)
+            ctx.count('rf.shape.%s' % ('block' if len(mg) == 2 else 'peak-set-with-holes' if uneven else 'single-peak-or-plateau'))
     ctx.count('seq.%s' % ('adc_after_rf' if after else 'no_adc_after_rf'))
     # model correspondence
     if ok and ctx.model_available:
